@@ -201,6 +201,7 @@ class Recorder:
         opts.update(_range(list(flags) + list(extra_args)))
         opts["v3"] = self.a.conf.hash_size != 16 or any(x > 1 for x in self.a.conf.splits)
         opts["prehash"] = "-h" in flags
+        opts["force_realloc"] = "-R" in flags
         pre_fs = self.last["fs"]
         args = list(flags) + list(extra_args)
         if midrun:
@@ -486,7 +487,8 @@ class Recorder:
 
     # ---- output
     def header(self):
-        return {"D": self.D, "NP": self.a.conf.np, "BS": BS, "vlen": self.vlen, "names": sorted(self.names)}
+        return {"D": self.D, "NP": self.a.conf.np, "BS": BS, "vlen": self.vlen, "names": sorted(self.names),
+                "hs": self.a.conf.hash_size}
 
 
 def write_traces(path, recs):
